@@ -517,6 +517,9 @@ func (d *V2) do(op Op) Resp {
 	case KSetInterpreter:
 		c.SetInterpreter(interpreter.NewNativeInterpreter())
 		return Resp{}
+	case KActivateDebug:
+		c.ActivateDebug()
+		return Resp{}
 	case KSetICM:
 		v2.SetItemCollectionMetrics(c, map[string][]types.ItemCollectionMetrics{})
 		return Resp{}
